@@ -189,7 +189,15 @@ def name_cases(draw, tier):
     stem = st.sampled_from(["beta", "theta", "x", "a", "g_", "b", ""])
     num = st.one_of(st.sampled_from([0, 1, 2, 9, 10, 11, 100, 20, 3]), st.integers(0, 5000))
     tail = st.sampled_from(["", "_1", "_12", "b3", "_007"])
-    names = draw(st.lists(st.builds(lambda s, sep, n, t: s + sep + str(n) + t, stem, st.sampled_from(["_", ""]), num, tail), min_size=2, max_size=8, unique=True))
+    mk = st.builds(lambda s, sep, n, t: s + sep + str(n) + t, stem, st.sampled_from(["_", ""]), num, tail)
+    names = draw(st.lists(mk, min_size=1, max_size=5, unique=True))
+    # a family sharing stem and tail, differing only in the embedded integer
+    s0, sep0, t0 = draw(stem), draw(st.sampled_from(["_", ""])), draw(tail)
+    for n in draw(st.lists(num, min_size=2, max_size=4, unique=True)):
+        nm = s0 + sep0 + str(n) + t0
+        if nm not in names:
+            names.append(nm)
+    names = list(draw(st.permutations(names)))
     return {"names": names}
 
 
